@@ -324,11 +324,16 @@ func c05TypeOf(c *Ctx, fd *ast.FuncDecl) {
 // ---------------------------------------------------------------- SAFE-INDEX
 
 // funcsWithListSpineAccess: declarations whose body syntactically indexes or slices a list spine.
+// funcsWithListSpineAccess: the functions in which list-spine accesses are decided. Private helpers that the path executor inlines into
+// their callers (unexported, statically dispatched, called from within the package) are decided in the context of every caller — their
+// preconditions (a length comparison made by the caller) live there — and are not analysed on their own.
 func funcsWithListSpineAccess(c *Ctx) []*ast.FuncDecl {
-	var out []*ast.FuncDecl
+	direct := map[*ast.FuncDecl]bool{}
+	callees := map[*ast.FuncDecl][]*ast.FuncDecl{}
+	called := map[*ast.FuncDecl]bool{}
+	probe := c.NewSX()
 	for _, name := range c.DeclNames() {
 		fd := c.Decl(name)
-		has := false
 		ast.Inspect(fd.Body, func(n ast.Node) bool {
 			var x ast.Expr
 			switch e := n.(type) {
@@ -336,15 +341,48 @@ func funcsWithListSpineAccess(c *Ctx) []*ast.FuncDecl {
 				x = e.X
 			case *ast.SliceExpr:
 				x = e.X
+			case *ast.CallExpr:
+				if f := c.callee(e); f != nil && f.Pkg() == c.Types {
+					if g := c.DeclOf(f); g != nil && g != fd {
+						callees[fd] = append(callees[fd], g)
+						called[g] = true
+					}
+				}
 			}
 			if x != nil {
 				if _, ct := c.spineBase(x); ct != nil && ct.IsList {
-					has = true
+					direct[fd] = true
 				}
 			}
 			return true
 		})
-		if has {
+	}
+	helper := func(fd *ast.FuncDecl) bool {
+		f := c.FuncObj(fd)
+		return f != nil && called[fd] && probe.inlinable(f, nil, &sxState{}) != nil
+	}
+	var reach func(fd *ast.FuncDecl, depth int) bool
+	reach = func(fd *ast.FuncDecl, depth int) bool {
+		if direct[fd] {
+			return true
+		}
+		if depth > 4 {
+			return false
+		}
+		for _, g := range callees[fd] {
+			if helper(g) && reach(g, depth+1) {
+				return true
+			}
+		}
+		return false
+	}
+	var out []*ast.FuncDecl
+	for _, name := range c.DeclNames() {
+		fd := c.Decl(name)
+		if helper(fd) {
+			continue
+		}
+		if reach(fd, 0) {
 			out = append(out, fd)
 		}
 	}
